@@ -44,6 +44,11 @@ func fieldTable() []*big.Int {
 		new(big.Int).Sub(new(big.Int).Lsh(bigOne, 192), bigOne), ref.Gx, ref.Gy, ref.Beta, new(big.Int).Lsh(bigOne, 32)}
 }
 
+// wide operand family of the working-set cases: value i is (i+1) * Gx mod p
+func wideF(i int) *big.Int {
+	return new(big.Int).Mod(new(big.Int).Mul(big.NewInt(int64(i+1)), ref.Gx), ref.P)
+}
+
 var ops = map[string]endcore.OpDef{
 	"field.arith": {Prop: "C12", Cost: 0, Build: func() []endcore.Variant {
 		var out []endcore.Variant
@@ -73,6 +78,22 @@ var ops = map[string]endcore.OpDef{
 			})
 		}
 		return out
+	}, Wide: func(i int) endcore.Variant {
+		a, b := wideF(i), wideF(2*i+3)
+		ea, eb, r := fe(a), fe(b), field.New()
+		wadd, wmul, wsq := limbs(ref.FAdd(a, b)), limbs(ref.FMul(a, b)), limbs(ref.FMul(a, a))
+		return func() string {
+			if r.Add(ea, eb); r.E != wadd {
+				return fmt.Sprintf("%x + %x: limbs %v, want %v", a, b, r.E, wadd)
+			}
+			if r.Multiply(ea, eb); r.E != wmul {
+				return fmt.Sprintf("%x * %x: limbs %v, want %v", a, b, r.E, wmul)
+			}
+			if r.Square(ea); r.E != wsq {
+				return fmt.Sprintf("%x ^ 2: limbs %v, want %v", a, r.E, wsq)
+			}
+			return ""
+		}
 	}},
 	"field.bytes": {Prop: "C12", Cost: 1, Build: func() []endcore.Variant {
 		var out []endcore.Variant
@@ -138,6 +159,23 @@ var ops = map[string]endcore.OpDef{
 			})
 		}
 		return out
+	}, Wide: func(i int) endcore.Variant {
+		a, b := wideF(i), wideF(i+1)
+		ea, eb, r := fe(a), fe(b), field.New()
+		winv := limbs(ref.FInv0(a))
+		wsq := uint64(0)
+		if ref.IsSquare(ref.FMul(a, ref.FInv0(b))) {
+			wsq = 1
+		}
+		return func() string {
+			if r.Invert(*ea); r.E != winv {
+				return fmt.Sprintf("1/%x: limbs %v, want %v", a, r.E, winv)
+			}
+			if _, flag := r.SqrtRatio(ea, eb); flag != wsq {
+				return fmt.Sprintf("SqrtRatio(%x, %x) flag %d, want %d", a, b, flag, wsq)
+			}
+			return ""
+		}
 	}},
 	"map.sswu-isogeny": {Prop: "C11", Cost: 2, Build: func() []endcore.Variant {
 		var out []endcore.Variant
@@ -158,6 +196,20 @@ var ops = map[string]endcore.OpDef{
 			})
 		}
 		return out
+	}, Wide: func(i int) endcore.Variant {
+		u := wideF(i)
+		wx, wy, _ := ref.SSWU(u)
+		want := ref.IsoMap(wx, wy)
+		if want.Inf || !want.Valid() {
+			return func() string { return "" }
+		}
+		wenc := ref.Uncompressed(want)
+		return func() string {
+			if got := secp256k1.IsogenySecp256k13iso(secp256k1.SSWU(fe(u))).EncodeUncompressed(); !bytes.Equal(got, wenc) {
+				return fmt.Sprintf("iso(SSWU(%x)) = %x, want %x", u, got, wenc)
+			}
+			return ""
+		}
 	}},
 }
 
